@@ -26,18 +26,30 @@ func quiet() {
 // knob draws a per-run switch for an input class that reaches a reported
 // finding. VERIF_PROOFDB_OFF="all" or a comma list of knob names forces such
 // classes off (the tape is drawn all the same), so that the remaining inputs
-// can be explored while a finding is still open.
+// can be explored while a finding is still open; VERIF_PROOFDB_ON forces them on.
+// Both are development switches: checks, replays and evidence use neither.
 func knob(k *kernel.K, num, den int, name string) bool {
 	v := k.Bool(num, den, "knob-"+name)
-	if off := os.Getenv("VERIF_PROOFDB_OFF"); off != "" {
-		if off == "all" {
-			return false
-		}
-		for _, x := range strings.Split(off, ",") {
+	listed := func(env string) (all, named bool) {
+		val := os.Getenv(env)
+		for _, x := range strings.Split(val, ",") {
 			if x == name {
-				return false
+				named = true
 			}
 		}
+		return val == "all", named
+	}
+	offAll, off := listed("VERIF_PROOFDB_OFF")
+	onAll, on := listed("VERIF_PROOFDB_ON")
+	switch {
+	case off:
+		return false
+	case on:
+		return true
+	case offAll:
+		return false
+	case onAll:
+		return true
 	}
 	return v
 }
